@@ -50,6 +50,7 @@ def generate(st):
         'fault_kinds': sorted(sw.sample(FAULTS, sw.randint(1, len(FAULTS)))),
         'rounds': 2 if sw.random() < 0.3 else 1,
         'falsy_results': sw.random() < 0.3,
+        'wide': sw.random() < 0.25,          # containers with many members
         'shared_containers': sw.random() < 0.3,      # the caller refills the SAME container objects and waits again
     }
     leaves = []
@@ -89,13 +90,13 @@ def generate(st):
         if cfg.get('shared_containers') and okrefs and g.random() < 0.25 and not top:
             return {'t': 'same', 'ref': g.choice(okrefs)}       # the very same container object once more
         c = g.choice(cfg['containers'])
-        n = g.choice([0, 1, 2, 2, 3, 3, 4])
+        n = g.choice([0, 1, 2, 2, 3, 3, 4]) if not (cfg.get('wide') and g.random() < 0.4) else g.choice([5, 6, 8, 11])
         items = [build(depth_left - 1, False) for _ in range(n)]
         node = {'t': c, 'items': items, 'id': len(made)}
         # a container may appear twice only if everything in it can be awaited twice (coroutine objects cannot)
         made.append({'id': node['id'], 'ok': _multi_ok(node, leaves)})
         if c not in ('list', 'tuple'):
-            pool = ['a', 'b', 'c', 'd', 'e', 'k1', 'k2']
+            pool = ['a', 'b', 'c', 'd', 'e', 'k1', 'k2', 'f', 'g', 'h', 'i', 'j']
             if c in ('dict', 'OrderedDict'):
                 pool = pool + [0, 1, 7]
             g.shuffle(pool)
